@@ -1014,3 +1014,11 @@ func (q *Q) Attributed(f *ssa.Function) (names []string, ok bool) {
 	sort.Strings(names)
 	return names, ok && len(names) > 0
 }
+
+// Forget drops the cached query object of p (scratch programs of the
+// sensitivity self-test).
+func Forget(p *core.Prog) {
+	mu.Lock()
+	defer mu.Unlock()
+	delete(cache, p)
+}
